@@ -1037,6 +1037,33 @@ example : validateSegment { exCtx with optEncrypted := true, infoEncrypted := tr
     (timeExp 10 (5760, 960))
     { (exObs 7 5760) with senc := some (40, 16, 4), saio := some [57] } = [SegErr.saioOffset] := by decide
 
+/-- an encrypted fragment with an in-band event in front of the moof (moof at 62, default-base-is-moof:
+the implied base IS the moof position, media_segment.py:329-333): the server's saio offset 121 points at
+the first senc entry (62 + 121 = 183) and is accepted; 183 – right only if the base were 0 – is reported,
+and so is 121 when the same boxes sit in a segment whose moof is the first box -/
+def exEncObs (moofPos : Nat) (saio : Nat) : SegObs :=
+  { (exObs 7 5760) with baseDataOffset := moofPos, dataOffset := 120, mdatPos := moofPos + 112,
+                        senc := some (moofPos + 105, 16, 4), saio := some [saio] }
+
+def exEncCtx : RepCtx := { exCtx with optEncrypted := true, infoEncrypted := true, ivKnown := true }
+
+example : validateSegment exEncCtx (timeExp 10 (5760, 960)) (exEncObs 62 121) = [] := by decide
+example : validateSegment exEncCtx (timeExp 10 (5760, 960)) (exEncObs 62 183) = [SegErr.saioOffset] := by decide
+example : validateSegment exEncCtx (timeExp 10 (5760, 960)) (exEncObs 0 121) = [] := by decide
+example : validateSegment exEncCtx (timeExp 10 (5760, 960)) (exEncObs 0 183) = [SegErr.saioOffset] := by decide
+
+/-- the saio rule for **every** base (moof position or explicit tfhd offset): with one offset entry, the
+error is present iff `senc position + offset of its first entry ≠ saio offset + base` -/
+theorem saio_offset_iff (o : SegObs) (p f n x : Nat) (hsenc : o.senc = some (p, f, n)) (hsaio : o.saio = some [x]) :
+    SegErr.saioOffset ∈ checkSaio o ↔ ((p + f : Nat) : Int) ≠ (x : Int) + o.baseDataOffset := by
+  unfold checkSaio
+  simp only [hsenc, hsaio, List.length_singleton, if_true, List.headD_cons, List.nil_append]
+  by_cases h : ((p + f : Nat) : Int) = (x : Int) + o.baseDataOffset
+  · simp [h]
+  · have h' : ¬ ((p : Int) + (f : Int) = (x : Int) + o.baseDataOffset) := by
+      intro hc; apply h; push_cast; exact hc
+    simp [h']
+
 /-- a gap: the timeline of positions 5, 6, 7 with 6 removed -/
 example : located (repPass exCtx none (fetchAll
     ([(4800, 960), (6720, 960)].map (timeExp 10)) [exObs 6 4800, exObs 8 6720])) = [(1, SegErr.seqNum)] := by
